@@ -24,3 +24,4 @@ PROP = {'engine': 'stack',
               'independent sanitiser specification'}
 PROP['rule'] += ' Round-4 addition: runtime kinds slowinit (still initialising for 1.3-1.8 s when the restore comes) and busy (working on an invocation for that long): the restore returns success within 1 s (the runtime never entered the restore poll) and the invocation in progress completes normally.'
 PROP['rule'] += " Round-5 addition: in half of the cases the function's own configuration (customer environment) names AWS_CONTAINER_AUTHORIZATION_TOKEN and/or AWS_CONTAINER_CREDENTIALS_FULL_URI: the runtime's environment must still carry the per-instance token and this instance's endpoint, and the fetches with the token found there are served."
+PROP['rule'] += " Round-10 addition: credential fetches also use near-misses derived from the instance token (upper-cased, truncated, extended, last digit flipped, 'Bearer ' prefixed): 404."
